@@ -80,7 +80,11 @@ auto make_scanline_reader(Device& io_dev, FormatTag const&,
     >::type* /*dummy*/ = nullptr)
     -> typename get_scanline_reader<Device, FormatTag>::type
 {
-    return make_scanline_reader(io_dev, image_read_settings<FormatTag>());
+    using device_t = typename get_read_device<Device, FormatTag>::type;
+    device_t device(io_dev);
+
+    return typename get_scanline_reader<Device, FormatTag>::type(
+        device, image_read_settings<FormatTag>());
 }
 
 }} // namespace boost::gil
